@@ -86,7 +86,12 @@ CLAIMS = {
         "exchange, of the Minecraft Java query against a TCP peer that never writes, and of a TCP read against a peer that writes part of a reply and "
         "then stalls with the connection open, of the Eco query through the HTTP client against a peer that is mute / stalls in the head / in the body / "
         "refuses, and of EVERY UDP family (Quake, GameSpy 1/2/3, Unreal 2, Bedrock, Valve) against a loopback server that replays a valid exchange up to "
-        "a cut point — result and requests seen compared with the model of the cut exchange —, of the HTTP client against 29 server behaviours x 3 calls "
+        "a cut point — result and requests seen compared with the model of the cut exchange —, of socket.rs itself (Proto/Socket.lean models UdpSocketImpl / "
+        "TcpSocketImpl as functions into OS calls; Props/C12_socket.lean proves for every remote address incl. IPv4-mapped ones, every settings value and every "
+        "OS behaviour: the bind address has the remote's family, one send_to / write of exactly the bytes to exactly the remote, a receive returns the datagram "
+        "cut at the size asked for / the stream up to EOF, every blocking call is made under the duration the settings ask for — connect by connect, send by "
+        "write, receive by read —, a total error table, and that the abstract Net is refined by these calls; tie: entry `sock` against loopback peers incl. "
+        "decoys, both too-long and too-short waits flagged; `realseq`: several receives of different sizes on ONE socket), of the HTTP client against 29 server behaviours x 3 calls "
         "(refuses, unanswered connect, mute, stalls / closes in the head and in the body, error statuses, redirects, non-JSON: Props/C12_http.lean proves the "
         "decision tables — which failure gives which error kind, at most ONE timed-out step and which duration bounds it; found and repaired: a stall inside "
         "nested JSON cost one read timeout per open bracket) —, each vs (model's count of timed-out steps) x READ timeout "
@@ -128,8 +133,16 @@ CLAIMS = {
         "witnesses (C14_dispatch_generic_eq_module, C14_dispatch_battalion, C14_dispatch_minecraft_auto_port_omitted); every logged open / send carries "
         "the given port or the row's default, for all arms (C14_dispatch_destination_port); arms that hand the optional port on use a callee default equal "
         "to the row's (C14_dispatch_own_default). Tie + oracle: `dispatch` / `dispatch-module` entries run the model and the real code for every game of "
-        "the table on valid, cut and mutated exchanges, port given and omitted, six retry / extra-settings combinations; the three real call paths are "
-        "compared with each other."),
+        "the table on valid, cut and mutated exchanges, port given and omitted, fixed and random retry / extra-settings combinations, over IPv4 and IPv6; "
+        "the three real call paths are compared with each other (the per-game form of a protocol response is written by the harness itself, not through the "
+        "library's conversion). THE ARMS THEMSELVES ARE TRANSLATED (tools/xlate_arms.py -> Gen/Arms.lean, on every run; a source shape outside its "
+        "vocabulary makes it fail loudly): every arm of `match &game.protocol` in games/query.rs (callee, how each argument is built from address / port / "
+        "definition / timeout / extra settings), the From<ExtraRequestSettings> impls, defaults, the game_query_fn! bodies and the hand-written modules' "
+        "wrappers; Proto/ArmsSem.lean evaluates the translated terms and Props/C14_arms.lean proves for EVERY arm and every argument value: evaluated "
+        "translation = the call the hand-written Dispatch model makes (C14_arms_call_eq_model, C14_arms_translation_eq_generic), exactly one arm per "
+        "protocol value, the caller's timeout / retry count reaches every arm, the port is the caller's else the definition's default for every arm and "
+        "every auto-detect probe, extra settings reach the protocol field by field when given (C14_arms_extra_*); a mutation self-test of the translator "
+        "runs in the thorough tier. The CLI as fourth caller (C14_cli_*)."),
   note=TB + "translator validated by the differential; modules take no timeout argument (compared at retry 0); Eco's HTTP client is a parameter of the dispatch model (Ext.ecoFetch) and its arm is tied by the three real paths only; Epic and Minetest (tls feature) are outside the model. Known findings: battalion1944 (module-only rule overrides), Minecraft auto-detect with the port omitted (Bedrock probe port).",
   technique="source-to-Lean translation of the game tables + Lean 4 proof (decide over the table; path equalities and destination port over the dispatch model) + model/implementation and three-path differential"),
  "C15": dict(
@@ -153,7 +166,9 @@ CLAIMS = {
         "accepted value then used on real UDP and TCP sockets, extreme retry counts and durations on scripted queries of every family, extreme host names / "
         "protocol versions as request settings. THE HTTP CLIENT (Props/C18_http.lean): each duration reaches the agent unchanged at its own place (None = the "
         "builder's default), nothing is computed from the durations, no panic for any accepted combination; tie: http-plan with 17 duration triples incl. "
-        "the largest against a server that answers."),
+        "the largest against a server that answers. socket.rs (Props/C18_socket.lean): the unwraps in apply_timeout are unreachable for every accepted settings "
+        "value under std's setter contract (a zero duration WOULD panic: the validation is what protects them), no panic in any session of sends and receives; "
+        "nanosecond timeouts on real sockets with datagrams from the peer and from strangers queued before the receive. The CLI's flag group (C18_cli_*)."),
   note=TB + "clap/serde derive output is modelled (field-wise construction through parse_duration_secs / try_from), std socket-option behaviour is exercised on real sockets, not proved.",
   technique="Lean 4 proof (decision logic of the three construction paths) + exhaustive configuration matrix on the real code"),
  "C16": dict(
